@@ -7,70 +7,11 @@ use std::sync::Arc;
 use warp_math::scalar::{DFix64, F32Scalar, Scalar};
 use warp_math::{fixed_q32_32, Mat4, Prng, Quat, Vec3};
 
-pub const T_S: u8 = 1; // result produced by the F32Scalar type (must be canonical)
-pub const T_R: u8 = 2; // raw f32 result
-pub const T_I: u8 = 3; // integer result
-pub const T_P: u8 = 9; // panic (val 1) / conflated "non-finite or debug-assert panic" (val 0)
+pub use c19fw::{Op, Out, PredFn, T_I, T_P, T_R, T_S};
 
-pub struct Out {
-    pub n: usize,
-    pub tag: [u8; 64],
-    pub val: [u64; 64],
-    pub fails: [&'static str; 8],
-    pub nf: usize,
-}
-
-impl Out {
-    pub fn new() -> Out {
-        Out { n: 0, tag: [0; 64], val: [0; 64], fails: [""; 8], nf: 0 }
-    }
-    pub fn reset(&mut self) {
-        self.n = 0;
-        self.nf = 0;
-    }
-    pub fn push(&mut self, t: u8, v: u64) {
-        if self.n < 64 {
-            self.tag[self.n] = t;
-            self.val[self.n] = v;
-            self.n += 1;
-        }
-    }
-    fn s(&mut self, x: F32Scalar) -> u32 {
-        let b = x.to_f32().to_bits();
-        self.push(T_S, b as u64);
-        b
-    }
-    fn r(&mut self, x: f32) -> u32 {
-        self.push(T_R, x.to_bits() as u64);
-        x.to_bits()
-    }
-    fn i(&mut self, x: i64) {
-        self.push(T_I, x as u64);
-    }
-    fn fail(&mut self, c: &'static str) {
-        if self.nf < 8 && !self.fails[..self.nf].contains(&c) {
-            self.fails[self.nf] = c;
-            self.nf += 1;
-        }
-    }
-}
-
-type EvalFn = Box<dyn Fn(u64, &mut Out) + Send + Sync>;
-type PredFn = Box<dyn Fn(u64) -> bool + Send + Sync>;
-type DescFn = Box<dyn Fn(u64) -> Value + Send + Sync>;
-
-pub struct Op {
-    pub name: &'static str,
-    pub n: u64,
-    pub eval: EvalFn,
-    /// totality is claimed for this input (all float inputs finite / integer inputs)
-    pub in_domain: PredFn,
-    /// input involves a special class (vacuity / distinct_nontrivial)
-    pub special: PredFn,
-    pub describe: DescFn,
-    /// hash "non-finite result" and "panic" as the same class (quaternion constructors)
-    pub conflate: bool,
-    pub min_distinct: usize,
+/// push a result of the F32Scalar type (checked for canonical form by the framework)
+fn sc(o: &mut Out, x: F32Scalar) -> u32 {
+    o.s_bits(x.to_f32().to_bits())
 }
 
 // ───────────────────────────── alphabets ─────────────────────────────
@@ -483,7 +424,7 @@ pub fn build_ops(al: &Arc<Alph>) -> (Vec<Op>, Vec<Op>) {
                 let (xb, yb) = (a1.b[(i / nb) as usize], a1.b[(i % nb) as usize]);
                 let (x, y) = (F32Scalar::new(f(xb)), F32Scalar::new(f(yb)));
                 let (cx, cy) = (f(canon_ref(xb)), f(canon_ref(yb)));
-                let r = [o.s(x + y), o.s(x - y), o.s(x * y), o.s(x / y)];
+                let r = [sc(o, x + y), sc(o, x - y), sc(o, x * y), sc(o, x / y)];
                 let want = [canon_ref_f(cx + cy), canon_ref_f(cx - cy), canon_ref_f(cx * cy), canon_ref_f(cx / cy)];
                 if r != want {
                     o.fail("differs-from-canonicalised-IEEE-reference");
@@ -775,11 +716,11 @@ pub fn build_ops(al: &Arc<Alph>) -> (Vec<Op>, Vec<Op>) {
     };
     tri(&mut ops, "f32s_compose", 100, |a, b, c, o| {
         let (x, y, z) = (F32Scalar::new(f(a)), F32Scalar::new(f(b)), F32Scalar::new(f(c)));
-        o.s(x * y + z);
-        o.s(x * (y + z));
-        o.s((x - y) / z);
-        o.s(-(x * y));
-        o.s(-x - y - z);
+        sc(o, x * y + z);
+        sc(o, x * (y + z));
+        sc(o, (x - y) / z);
+        sc(o, -(x * y));
+        sc(o, -x - y - z);
     });
     tri(&mut ops, "vec3_norm3", 100, |a, b, c, o| {
         let v = Vec3::new(f(a), f(b), f(c));
@@ -821,8 +762,8 @@ pub fn build_ops(al: &Arc<Alph>) -> (Vec<Op>, Vec<Op>) {
     // ── unary sweeps ──
     unary(&mut ops, "f32s_new", 100, false, |x, b, o| {
         let a = F32Scalar::new(x);
-        let r = o.s(a);
-        let r2 = o.s(F32Scalar::from_f32(x));
+        let r = sc(o, a);
+        let r2 = sc(o, F32Scalar::from_f32(x));
         let c = canonicalize_f32(x).to_bits();
         o.push(T_S, c as u64);
         if r != canon_ref(b) || r2 != r {
@@ -837,15 +778,15 @@ pub fn build_ops(al: &Arc<Alph>) -> (Vec<Op>, Vec<Op>) {
     });
     unary(&mut ops, "f32s_neg", 100, false, |x, b, o| {
         let a = F32Scalar::new(x);
-        let r = o.s(-a);
+        let r = sc(o, -a);
         let want = canon_ref((f(canon_ref(b)).to_bits()) ^ 0x8000_0000);
         if r != want {
             o.fail("differs-from-canonical(-canonical(x))-reference");
         }
-        if o.s(-(-a)) != a.to_f32().to_bits() {
+        if sc(o, -(-a)) != a.to_f32().to_bits() {
             o.fail("double-negation-not-identity");
         }
-        o.s(F32Scalar::zero() - a);
+        sc(o, F32Scalar::zero() - a);
     });
     unary(&mut ops, "f32s_trig", 100, false, |x, _b, o| {
         if !x.is_finite() {
@@ -855,48 +796,22 @@ pub fn build_ops(al: &Arc<Alph>) -> (Vec<Op>, Vec<Op>) {
         let s = a.sin();
         let c = a.cos();
         let (s2, c2) = a.sin_cos();
-        let sb = o.s(s);
-        let cb = o.s(c);
-        if o.s(s2) != sb || o.s(c2) != cb {
+        let sb = sc(o, s);
+        let cb = sc(o, c);
+        if sc(o, s2) != sb || sc(o, c2) != cb {
             o.fail("sin_cos-inconsistent-with-sin/cos");
         }
-        let na = -a;
-        if o.s(na.sin()) != (-s).to_f32().to_bits() {
-            o.fail("sin-not-exactly-odd");
-        }
-        if o.s(na.cos()) != cb {
-            o.fail("cos-not-exactly-even");
-        }
-        trig_checks(o, a.to_f32(), s.to_f32(), c.to_f32());
-    });
-    unary(&mut ops, "mat4_rot", 100, false, |x, _b, o| {
-        if !x.is_finite() {
-            return;
-        }
-        let rx = Mat4::rotation_x(x).to_array();
-        let ry = Mat4::rotation_y(x).to_array();
-        let rz = Mat4::rotation_z(x).to_array();
-        let nx = Mat4::rotation_x(-x).to_array();
-        let (c, s, ns) = (rx[5], rx[6], rx[9]);
-        for v in [rx[5], rx[6], rx[9], rx[10], ry[0], ry[2], ry[8], ry[10], rz[0], rz[1], rz[4], rz[5], nx[5], nx[6], nx[9], nx[10]] {
-            o.r(v);
-        }
-        let same = |a: f32, b: f32| a.to_bits() == b.to_bits();
-        if !(same(rx[10], c) && same(ry[0], c) && same(ry[10], c) && same(rz[0], c) && same(rz[5], c) && same(ry[8], s) && same(rz[1], s) && same(ry[2], ns) && same(rz[4], ns)) {
-            o.fail("rotation_x/y/z-disagree-on-sin/cos");
-        }
-        if !same(nx[5], c) {
-            o.fail("cos-not-exactly-even");
-        }
-        if !same(nx[6], ns) || !same(nx[9], s) {
-            o.fail("sin-not-exactly-odd");
-        }
-        for v in [c, s, ns] {
-            if v.to_bits() == 0x8000_0000 {
-                o.fail("negative-zero-after-canonicalize_zero");
+        if o.oracles {
+            // not hashed: the values for -x are in the stream at the index of -x
+            let na = -a;
+            if na.sin().to_f32().to_bits() != (-s).to_f32().to_bits() {
+                o.fail("sin-not-exactly-odd");
             }
+            if na.cos().to_f32().to_bits() != cb {
+                o.fail("cos-not-exactly-even");
+            }
+            trig_checks(o, a.to_f32(), s.to_f32(), c.to_f32());
         }
-        trig_checks(o, x, s, c);
     });
     unary(&mut ops, "fixed_q32_32", 100, false, |x, _b, o| {
         let raw = fixed_q32_32::from_f32(x);
@@ -921,28 +836,6 @@ pub fn build_ops(al: &Arc<Alph>) -> (Vec<Op>, Vec<Op>) {
             o.fail("differs-from-integer-truncation-reference");
         }
     });
-    unary(&mut ops, "deg_rad", 100, false, |x, _b, o| {
-        o.r(warp_math::deg_to_rad(x));
-        o.r(warp_math::rad_to_deg(x));
-    });
-    unary(&mut ops, "sqrt_paths", 100, false, |x, _b, o| {
-        let len = Vec3::new(x, 0.0, 0.0).length();
-        o.r(len);
-        let d = x * x + 0.0 * 0.0 + 0.0 * 0.0;
-        let want = if !d.is_finite() || d <= 0.0 { 0.0 } else { d.sqrt() };
-        if len.to_bits() != want.to_bits() {
-            o.fail("det_sqrt-differs-from-correctly-rounded-sqrt");
-        }
-        for v in Vec3::new(x, x, x).normalize().to_array() {
-            o.r(v);
-        }
-        for v in Vec3::new(x, 0.0, 0.0).normalize().to_array() {
-            o.r(v);
-        }
-        for v in Quat::from([x, 0.0, 0.0, 1.0]).normalize().to_array() {
-            o.r(v);
-        }
-    });
     unary(&mut ops, "dfix_unary", 100, false, |x, _b, o| {
         let d = DFix64::from_f32(x);
         o.i(d.raw());
@@ -963,15 +856,70 @@ pub fn build_ops(al: &Arc<Alph>) -> (Vec<Op>, Vec<Op>) {
         if s.raw().abs() > one || c.raw().abs() > one {
             o.fail("fixed-lane-sin/cos-outside-[-1,1]");
         }
+        if !o.oracles {
+            return;
+        }
         let (ns, nc) = (nd.sin(), nd.cos());
-        o.i(ns.raw());
-        o.i(nc.raw());
         if ns != -s {
             o.fail("fixed-lane-sin-not-exactly-odd");
         }
         if nc != c {
             o.fail("fixed-lane-cos-not-exactly-even");
         }
+    });
+    unary(&mut ops, "sqrt_paths", 100, false, |x, _b, o| {
+        let len = Vec3::new(x, 0.0, 0.0).length();
+        o.r(len);
+        let d = x * x + 0.0 * 0.0 + 0.0 * 0.0;
+        let want = if !d.is_finite() || d <= 0.0 { 0.0 } else { d.sqrt() };
+        if len.to_bits() != want.to_bits() {
+            o.fail("det_sqrt-differs-from-correctly-rounded-sqrt");
+        }
+        for v in Vec3::new(x, x, x).normalize().to_array() {
+            o.r(v);
+        }
+        for v in Vec3::new(x, 0.0, 0.0).normalize().to_array() {
+            o.r(v);
+        }
+        for v in Quat::from([x, 0.0, 0.0, 1.0]).normalize().to_array() {
+            o.r(v);
+        }
+    });
+    unary(&mut ops, "deg_rad", 100, false, |x, _b, o| {
+        o.r(warp_math::deg_to_rad(x));
+        o.r(warp_math::rad_to_deg(x));
+    });
+    unary(&mut ops, "mat4_rot", 100, false, |x, _b, o| {
+        if !x.is_finite() {
+            return;
+        }
+        let rx = Mat4::rotation_x(x).to_array();
+        let ry = Mat4::rotation_y(x).to_array();
+        let rz = Mat4::rotation_z(x).to_array();
+        let (c, s, ns) = (rx[5], rx[6], rx[9]);
+        for v in [rx[5], rx[6], rx[9], rx[10], ry[0], ry[2], ry[8], ry[10], rz[0], rz[1], rz[4], rz[5]] {
+            o.r(v);
+        }
+        if !o.oracles {
+            return;
+        }
+        let nx = Mat4::rotation_x(-x).to_array();
+        let same = |a: f32, b: f32| a.to_bits() == b.to_bits();
+        if !(same(rx[10], c) && same(ry[0], c) && same(ry[10], c) && same(rz[0], c) && same(rz[5], c) && same(ry[8], s) && same(rz[1], s) && same(ry[2], ns) && same(rz[4], ns)) {
+            o.fail("rotation_x/y/z-disagree-on-sin/cos");
+        }
+        if !same(nx[5], c) {
+            o.fail("cos-not-exactly-even");
+        }
+        if !same(nx[6], ns) || !same(nx[9], s) {
+            o.fail("sin-not-exactly-odd");
+        }
+        for v in [c, s, ns] {
+            if v.to_bits() == 0x8000_0000 {
+                o.fail("negative-zero-after-canonicalize_zero");
+            }
+        }
+        trig_checks(o, x, s, c);
     });
 
     // ── outside the stated domain: non-finite angles reaching sin_cos_f32 (evidence only) ──
@@ -992,8 +940,8 @@ pub fn build_ops(al: &Arc<Alph>) -> (Vec<Op>, Vec<Op>) {
     };
     outside.push(mk("F32Scalar::sin_cos(non-finite)", |x, o| {
         let (s, c) = F32Scalar::new(x).sin_cos();
-        o.s(s);
-        o.s(c);
+        sc(o, s);
+        sc(o, c);
     }));
     outside.push(mk("Mat4::rotation_x(non-finite)", |x, o| {
         let m = Mat4::rotation_x(x).to_array();
